@@ -153,7 +153,7 @@ theorem cvalueIgnoring_nil (v : Value) (ks : List Tree) : cvalueIgnoring [] v ks
 /-- `shallow_equal_ignore_attributes` with a repeat-free ignore list, any two nodes whose own
     children are well ordered with unique attribute names (machine-size attribute lists). -/
 theorem shallowEqualIgnore_iff (a b : Tree) (ign : List Nat)
-    (oa : kidsOrdered a.kids = true) (ob : kidsOrdered b.kids = true)
+    (oa : orderedKids a.kids = true) (ob : orderedKids b.kids = true)
     (na : attrNamesNodup a.kids = true) (nb : attrNamesNodup b.kids = true) (hi : ign.Nodup)
     (la : a.attrLen < usizeModulus) (lb : b.attrLen < usizeModulus) :
     shallowEqualIgnoreAttributes a b ign = true ↔
